@@ -1,7 +1,7 @@
 use super::{BigUint, IntDigits};
 #[cfg(target_arch = "x86_64")]
 cfg_64!(
-    use std::arch::asm;
+    use core::arch::asm;
 );
 
 use crate::big_digit::{self, BigDigit};
